@@ -99,7 +99,11 @@ def run(ctx):
             "res_processed": 30, "res_duplicate": 30, "res_fetch_error": 20, "res_sync_error": 20,
             "res_store_error": 20, "res_historic": 20, "res_outside_window": 10, "res_ok_empty": 10,
             "res_ok_stored": 5, "res_ok_fetched": 2, "res_not_available": 5, "res_byzantine": 2,
+            "res_not_available_or_byzantine": 1,
             "res_cancelled": 1, "multisource_events": 6}
     for k, n in need.items():
         if c.get(k, 0) < n:
             ctx.inconclusive("vacuity: driver counter %s = %s (< %d)" % (k, c.get(k, 0), n))
+    if c.get("byz_notfound_reported_not_available", 0):
+        ctx.note("DESIGN.md section 6 #19 (outside the statement): a byzantine error joined with not-found was reported as "
+                 "'not available' %d times" % c.get("byz_notfound_reported_not_available", 0))
